@@ -751,6 +751,13 @@ class Job:
                 except Exception:
                     # Any exception means this method cannot exit early.
 
+                    if self._statepoint_requires_init and self._cached_statepoint is None:
+                        # The state point is not known (the job was opened by id)
+                        # and could not be loaded, so there is nothing to
+                        # initialize the job with. Do not leave an empty job
+                        # directory behind.
+                        raise
+
                     # Create the workspace directory if it does not exist.
                     try:
                         _mkdir_p(self.path)
